@@ -245,6 +245,13 @@ func buildKeys() ([]*key, error) {
 		{"p256/d=n-1", "max", elliptic.P256(), new(big.Int).Sub(elliptic.P256().Params().N, one())},
 		{"p384/d=chain0", "mid", elliptic.P384(), chain("C14/p384", 0, new(big.Int).Sub(elliptic.P384().Params().N, one()))},
 		{"p384/d=2^376-1", "lead0", elliptic.P384(), new(big.Int).Sub(new(big.Int).Lsh(one(), 376), one())},
+		// the two remaining curves of smx509.namedCurveFromOID (widening: every accepted curve). P-224 has a 28-byte
+		// scalar; P-521 a 66-byte scalar whose top byte carries a single bit, so most scalars have a zero top byte.
+		{"p224/d=chain0", "mid", elliptic.P224(), chain("C14/p224", 0, new(big.Int).Sub(elliptic.P224().Params().N, one()))},
+		{"p224/d=2^216-1", "lead0", elliptic.P224(), new(big.Int).Sub(new(big.Int).Lsh(one(), 216), one())},
+		{"p521/d=chain0", "mid", elliptic.P521(), chain("C14/p521", 0, new(big.Int).Sub(elliptic.P521().Params().N, one()))},
+		{"p521/d=2^520", "top", elliptic.P521(), new(big.Int).Lsh(one(), 520)},
+		{"p521/d=n-1", "max", elliptic.P521(), new(big.Int).Sub(elliptic.P521().Params().N, one())},
 	}
 	for _, e := range ecs {
 		x, y := e.c.ScalarBaseMult(e.d.Bytes())
@@ -270,6 +277,18 @@ func refSM2Pub(d *big.Int) ecref.Point {
 	}
 	p := ecref.SM2().BaseMul(d)
 	refPubCache.Store(d.String(), p)
+	return p
+}
+
+// refSM9Pub caches the reference encryption master public key ke*P1 (uncompressed) on BN G1.
+var refSM9Cache sync.Map
+
+func refSM9Pub(d *big.Int) []byte {
+	if v, ok := refSM9Cache.Load(d.String()); ok {
+		return v.([]byte)
+	}
+	p := ecref.SM9G1().BaseMul(d).Uncompressed()
+	refSM9Cache.Store(d.String(), p)
 	return p
 }
 
@@ -339,7 +358,7 @@ func same(k *key, got any) (bool, string) {
 			return false, "master public part differs"
 		}
 		// reference: the encryption master public key is ke*P1 on the BN curve's G1
-		ref := ecref.SM9G1().BaseMul(k.d).Uncompressed()
+		ref := refSM9Pub(k.d)
 		if string(g.PublicKey().Bytes()) != string(ref) {
 			return false, fmt.Sprintf("master public key %x differs from reference ke*P1 %x", g.PublicKey().Bytes(), ref)
 		}
